@@ -74,6 +74,9 @@ func (h *c18Headers) BeaconBlockHeader(_ context.Context, opts *api.BeaconBlockH
 type c18Blocks struct{ h *c18Headers }
 
 func (b c18Blocks) SignedBeaconBlock(_ context.Context, opts *api.SignedBeaconBlockOpts) (*api.Response[*spec.VersionedSignedBeaconBlock], error) {
+	if b.h == nil {
+		return nil, errors.New("no block")
+	}
 	r, ok := b.h.resolve(opts.Block)
 	if !ok {
 		return nil, errors.New("no block")
